@@ -18,10 +18,10 @@ NUMS = {"zero": 0, "one": 1, "negzerof": -0.0, "onehalf": 0.5, "p53plus1": 2 ** 
         "negbigint": -10 ** 400, "int5000d": 10 ** 5000}
 STRS = {"empty": "", "nul": "\0", "paren": "(", "bracket": "a[0", "smiley": ":-)", "backslash": "\\", "long": "ab" * 5000,
         "astral": "\U0001F600", "combining": "é", "surrogate": "\ud800", "newline": "a\nb", "percent_s": "%s {0} {x}",
-        "brace": "{", "digits30": "9" * 30, "uuid_braced": "{12345678-1234-5678-1234-567812345678}"}
+        "brace": "{", "digits30": "9" * 30, "uuid_braced": "{12345678-1234-5678-1234-567812345678}", "digits2": "12", "aa": "aa"}
 MULTS = {"m_half": 0.5, "m_three": 3, "m_threef": 3.0, "m_tiny": 1e-300, "m_bigint": 10 ** 400}
 NAMES = {"nul": "\0", "del": "\x7f", "private_use": "\ue000", "surrogate": "\ud800", "paren": "(", "space": "a b",
-         "superscript": "²", "empty": "", "combining": "é", "keyword": "class", "dunder": "__init__"}
+         "superscript": "²", "empty": "", "combining": "é", "keyword": "class", "dunder": "__init__", "dunder_custom": "__type__", "dunder_only": "__"}
 
 
 def _srepr(v):
@@ -43,6 +43,9 @@ def atom_schema(atom, arg):
     return {
         "patterns_inline_flag": lambda: {"patternProperties": {"^a": {"type": "integer"}, "(?i)^B": {"type": "string"}},
                                          "properties": {"a": {}}},
+        "pattern_neg_lookbehind": lambda: {"pattern": r"(?<!-)\b\d+$"},
+        "pattern_lookahead": lambda: {"pattern": r"^(?=a)(?!ab)\w+"},
+        "pattern_backreference": lambda: {"pattern": r"^(?P<c>a)(?P=c)$", "patternProperties": {r"^(.)\1$": {}}},
         "patterns_same_group": lambda: {"patternProperties": {"^(?P<x>a)": {}, "^(?P<x>b)": {"type": "integer"}}},
         "deep_items": lambda: _nest(600, lambda s: {"items": s}),
         "deep_not": lambda: _nest(600, lambda s: {"not": s}),
